@@ -157,6 +157,35 @@ static bool innerLengthPositive(const Case& c, const Bytes& b)
     return false;
 }
 
+// Builds T from an exactly-sized heap block (freed before the accessors run) in static storage; when a sibling buffer is given, an object
+// built from it lives in that storage first, is swept and destroyed.
+template <class T>
+static Verdict buildInSameStorageAndSweep(uint8_t cls, const Bytes* sibling, uint8_t* heap, size_t n, ViewStats& vs)
+{
+    alignas(T) static unsigned char slot[sizeof(T)];
+    if (sibling)
+    {
+        uint8_t* sh = static_cast<uint8_t*>(malloc(sibling->size() ? sibling->size() : 1));
+        if (!sibling->empty())
+            memcpy(sh, sibling->data(), sibling->size());
+        T* a = new (slot) T(sh, sibling->size());
+        free(sh);
+        ViewStats ignored;
+        Verdict va = sweepAccessors(cls, *a, ignored);
+        a->~T();
+        if (!va.ok)
+        {
+            free(heap);
+            return Verdict::fail("sibling buffer (inner lengths rotated): " + va.why);
+        }
+    }
+    T* p = new (slot) T(heap, n);
+    free(heap);
+    Verdict v = sweepAccessors(cls, *p, vs);
+    p->~T();
+    return v;
+}
+
 static Verdict runCase(const Case& c, Info& info)
 {
     if (c.path == 3)
@@ -223,65 +252,43 @@ static Verdict runCase(const Case& c, Info& info)
         Verdict v = Verdict::pass();
         if (accepted)
         {
+            // a sibling buffer of the same size with the inner length values rotated / halved: if the validator accepts it too, an
+            // object built from it occupies the same storage first and is read, then the object under test is built in its place
+            // (a receive loop re-using one object; whatever a class remembers per object address must not outlive the object)
+            Case sib = c;
+            if (sib.vals.size() >= 2)
+                std::rotate(sib.vals.begin(), sib.vals.begin() + 1, sib.vals.end());
+            else if (sib.vals.size() == 1 && sib.vals[0] > 0)
+                sib.vals[0] /= 2;
+            Bytes sibling = buildPayloadBytes(sib);
+            bool useSibling = sibling != payload && classValidates(c.cls, sibling.data(), sibling.size());
+            if (useSibling)
+                info.tag("object_built_in_storage_that_held_another_accepted_payload");
             switch (c.cls)
             {
                 case pcCan:
-                {
-                    lib::CanPayload p(heap, payload.size());
-                    free(heap);
-                    heap = nullptr;
-                    v = sweepAccessors(c.cls, p, vs);
+                    v = buildInSameStorageAndSweep<lib::CanPayload>(c.cls, useSibling ? &sibling : nullptr, heap, payload.size(), vs);
                     break;
-                }
                 case pcCanFd:
-                {
-                    lib::CanFdPayload p(heap, payload.size());
-                    free(heap);
-                    heap = nullptr;
-                    v = sweepAccessors(c.cls, p, vs);
+                    v = buildInSameStorageAndSweep<lib::CanFdPayload>(c.cls, useSibling ? &sibling : nullptr, heap, payload.size(), vs);
                     break;
-                }
                 case pcLin:
-                {
-                    lib::LinPayload p(heap, payload.size());
-                    free(heap);
-                    heap = nullptr;
-                    v = sweepAccessors(c.cls, p, vs);
+                    v = buildInSameStorageAndSweep<lib::LinPayload>(c.cls, useSibling ? &sibling : nullptr, heap, payload.size(), vs);
                     break;
-                }
                 case pcEthernet:
-                {
-                    lib::EthernetPayload p(heap, payload.size());
-                    free(heap);
-                    heap = nullptr;
-                    v = sweepAccessors(c.cls, p, vs);
+                    v = buildInSameStorageAndSweep<lib::EthernetPayload>(c.cls, useSibling ? &sibling : nullptr, heap, payload.size(), vs);
                     break;
-                }
                 case pcAnalog:
-                {
-                    lib::AnalogPayload p(heap, payload.size());
-                    free(heap);
-                    heap = nullptr;
-                    v = sweepAccessors(c.cls, p, vs);
+                    v = buildInSameStorageAndSweep<lib::AnalogPayload>(c.cls, useSibling ? &sibling : nullptr, heap, payload.size(), vs);
                     break;
-                }
                 case pcCm:
-                {
-                    lib::CaptureModulePayload p(heap, payload.size());
-                    free(heap);
-                    heap = nullptr;
-                    v = sweepAccessors(c.cls, p, vs);
+                    v = buildInSameStorageAndSweep<lib::CaptureModulePayload>(c.cls, useSibling ? &sibling : nullptr, heap, payload.size(), vs);
                     break;
-                }
                 case pcIf:
-                {
-                    lib::InterfacePayload p(heap, payload.size());
-                    free(heap);
-                    heap = nullptr;
-                    v = sweepAccessors(c.cls, p, vs);
+                    v = buildInSameStorageAndSweep<lib::InterfacePayload>(c.cls, useSibling ? &sibling : nullptr, heap, payload.size(), vs);
                     break;
-                }
             }
+            heap = nullptr;
         }
         if (heap)
             free(heap);
